@@ -92,6 +92,7 @@ static int nst;
 /* the library's malloc() calls: the block comes back filled with the scenario's byte pattern (cfg fill=N), so that a field the library
  * forgets to initialise reads as all-ones / 1 / ... instead of whatever the allocator left there */
 static int cfg_fill = -1;
+static int cfg_probe_eintr, probe_calls;
 void *__wrap_malloc(size_t n)
 {
 	void *p = malloc(n);	/* only the library's references are redirected here */
@@ -314,6 +315,8 @@ static void one_action(char *act)
 			logf_("RET 0\n");
 		} else {
 			int r = iv_fd_register_try(F[i].o);
+			if (r != 0 && !F[i].bad && fcntl(F[i].fd, F_GETFD) >= 0)
+				logf_("TRY-FAILED-ON-OPEN-FD f%d\n", i);	/* the attempt may only fail for a descriptor that is not open */
 			F[i].isreg = (r == 0);
 			logf_("RET %d\n", r ? -1 : 0);
 		}
@@ -936,8 +939,15 @@ int __wrap_ppoll(struct pollfd *pfds, nfds_t n, const struct timespec *to, const
 
 int __wrap_poll(struct pollfd *pfds, nfds_t n, int to_ms)
 {
-	if (!in_library || n == 1 && to_ms == 0 && pfds != the_state()->u.poll.pfds)
-		return poll(pfds, n, to_ms);	/* iv_fd_poll_notify_fd_sync's probe */
+	if (!in_library || n == 1 && to_ms == 0 && pfds != the_state()->u.poll.pfds) {
+		/* iv_fd_poll_notify_fd_sync's probe; `cfg probe-eintr=k`: the k-th probe is interrupted by a signal once */
+		if (in_library && cfg_probe_eintr > 0 && ++probe_calls == cfg_probe_eintr) {
+			logf_("PROBE-EINTR\n");
+			errno = EINTR;
+			return -1;
+		}
+		return poll(pfds, n, to_ms);
+	}
 	return do_poll("poll", pfds, n, to_ms < 0 ? -1 : (long long)to_ms * 1000000LL, 1, to_ms);
 }
 
@@ -1021,6 +1031,7 @@ int main(int argc, char **argv)
 				else if (!strcmp(c, "pipe-emfile")) fail_pipe = 1;
 				else if (!strncmp(c, "eintr=", 6)) { if (neintr < 64) eintr_at[neintr++] = atoi(c + 6); }
 				else if (!strncmp(c, "fill=", 5)) cfg_fill = atoi(c + 5) & 0xff;
+				else if (!strncmp(c, "probe-eintr=", 12)) cfg_probe_eintr = atoi(c + 12);
 				else if (!strncmp(c, "waitlimit=", 10)) wait_limit = atoi(c + 10);
 				else if (!strncmp(c, "cblimit=", 8)) cb_limit = atoi(c + 8);
 				else { logf_("HARNESS-ERROR cfg %s\n", c); finish(NULL); }
